@@ -196,8 +196,8 @@ def work_hyp(prop, src, shard, seed, rec):
     last = {}
 
     def inner(case):
-        if rec.budget_exhausted or rec.expired():
-            return
+        if not last and (rec.budget_exhausted or rec.expired()):
+            return      # budget: stop exploring (never while a failure is being shrunk)
         case = jsonable(case)
         try:
             res = run_oracle(prop, case)
@@ -229,6 +229,14 @@ def work_hyp(prop, src, shard, seed, rec):
             continue
         except HarnessFailure:
             raise
+        except hypothesis.errors.Flaky as e:
+            if "v" not in last:
+                raise HarnessFailure("flaky oracle in %s: %s" % (src.name, e))
+            v, case = last["v"], last["case"]
+            rec.fail(case, v)
+            rec.evals -= 1
+            rec.excluded.add(v.sig)
+            continue
         except (hypothesis.errors.FailedHealthCheck, hypothesis.errors.Unsatisfiable) as e:
             raise HarnessFailure("generator problem in %s: %s" % (src.name, e))
         break
